@@ -134,7 +134,7 @@ def main():
             s = s.replace(k, val)
         # `unsafe { self.x_impl(..) }` vs `self.x_impl(..)` and `unsafe fn` vs `fn` (functions
         # with / without a #[target_feature]) are the same routing
-        s = re.sub(r"unsafe \{ (self\.\w+\([^)]*\)) \}", r"\1", s)
+        s = re.sub(r"unsafe \{ (self\.[\w.]+\([^)]*\)) \}", r"\1", s)
         s = s.replace("unsafe fn ", "fn ")
         s = re.sub(r"#\[target_feature\(enable = \"ISA\"\)\] ", "", s)
         s = re.sub(r"\s+", " ", s)
